@@ -409,6 +409,24 @@ def h_c16(case, pick, st, stats):
         t0, t1 = str(ak.type(A)), str(ak.type(back))
         if _inner_optionness(t0) != _inner_optionness(t1):
             return "option-ness below the top level not preserved by Arrow: %s -> %s" % (t0, t1)
+        # the same array read back LAZILY (from_buffers(lazy=True): VirtualArray nodes where the eager array has its contents,
+        # e.g. the fields of a record) and sent through Arrow: same value, same option-ness
+        # (only the VALUE and OPTION-NESS of a round trip that completes are judged here: lazy reading itself refuses tuple records
+        # -- _wrap_record_with_virtual reads form["contents"].values() -- and some lazily read arrays cannot be sent to Arrow;
+        # both observed on the unchanged tree, neither triaged: DESIGN 6)
+        try:
+            lazy = ak.from_buffers(form, length, container, lazy=True)
+            if not replay.values_equal(_plain(ak.to_list(lazy)), want):
+                raise ValueError("lazy reading differs")
+            lback = ak.from_arrow(ak.to_arrow(lazy, **opts))
+        except Exception:
+            stats["lazy_arrow_skipped"] = stats.get("lazy_arrow_skipped", 0) + 1
+            return None
+        if not replay.values_equal(_plain(ak.to_list(lback)), want):
+            return "from_arrow(to_arrow(lazily read array)) differs: %s" % (json.dumps(_plain(ak.to_list(lback)), default=str)[:200],)
+        if _inner_optionness(t0) != _inner_optionness(str(ak.type(lback))):
+            return "option-ness below the top level not preserved by Arrow for the lazily read array: %s -> %s" % (t0, ak.type(lback))
+        stats["lazy_arrow_checked"] = stats.get("lazy_arrow_checked", 0) + 1
     return None
 
 
